@@ -12,6 +12,7 @@
 #include <optional>
 #include <string_view>
 
+#include <cfenv>
 #include "common/verif.h"
 #include "ref/ref_floattext.h"
 
@@ -678,6 +679,8 @@ const char *const kWords[] = {"inf", "INF", "Infinity", "infinity", "INFINITY", 
 }  // namespace
 
 int verif_case(const uint8_t *data, size_t size, Case &c) {
+    // the thread's rounding direction as an earlier computation may have left it: printf / strtod - the oracles - and the library see the same one
+    struct RoundGuard { RoundGuard() { static const int m[4] = {FE_TONEAREST, FE_UPWARD, FE_DOWNWARD, FE_TOWARDZERO}; fesetround(m[verif::g_round_pre & 3]); } ~RoundGuard() { fesetround(FE_TONEAREST); } } round_guard;
     verif::Reader r(data, size, c);
     const uint8_t mode = r.u8();
 
